@@ -97,17 +97,28 @@ func contentTokens(text string) []string {
 			}
 		}
 	}
-	// a relationship type repeated inside one `[:A|B|A]` list is stored once (graph.Kinds.Add): same meaning
-	for k := 0; k < len(ns); k++ {
-		if norm(k) == "[" && k > 0 && norm(k-1) == "-" {
-			seen := map[string]bool{}
-			inKinds := false
-			for j := k + 1; j < len(ns) && norm(j) != "]" && norm(j) != "{" && norm(j) != "*"; j++ {
-				switch x := norm(j); {
-				case x == ":":
-					inKinds = true
-				case x == "|":
-				case inKinds:
+	// a relationship type repeated inside one `)-[v:A|B|A …` list is stored once (graph.Kinds.Add): same meaning
+	isName := func(k int) bool {
+		tt := raw[ns[k]].GetTokenType()
+		x := raw[ns[k]].GetText()
+		return tt == parser.CypherLexerUnescapedSymbolicName || tt == parser.CypherLexerEscapedSymbolicName || isAlpha(x)
+	}
+	for k := 2; k < len(ns); k++ {
+		if norm(k) == "[" && norm(k-1) == "-" && (norm(k-2) == ")" || (norm(k-2) == "<" && k >= 3 && norm(k-3) == ")")) {
+			j := k + 1
+			if j < len(ns) && isName(j) {
+				j++ // variable
+			}
+			if j < len(ns) && norm(j) == ":" {
+				seen := map[string]bool{}
+				for j++; j < len(ns); j++ {
+					x := norm(j)
+					if x == "|" || x == ":" {
+						continue
+					}
+					if !isName(j) {
+						break
+					}
 					if seen[x] {
 						drop[ns[j]] = true
 					}
@@ -896,7 +907,7 @@ func (c07Suite) Gen(rng *Rng, tier string, w *bufio.Writer, stats *Stats) {
 	}
 	ngen := 1500
 	if thorough {
-		ngen = 20000
+		ngen = 15000
 	}
 	for k := 0; k < ngen; k++ {
 		c := &c07Gen{g: g, rng: rng, rareW: 0, fuel: 40 + rng.Intn(260)}
